@@ -8,6 +8,7 @@ struct ZooGenCfg
 {
 	int archive = A_MSGPACK;
 	uint32_t maxLen = 12;
+	int csvRoot = -1;            // -1: drawn
 	bool allowEmpty = true;      // KF-XML-EMPTY-CONTAINER: false for XML in 63 of 64 runs
 	bool smartPointersSet = false;
 	bool nonEmptyStrings = false;
@@ -62,6 +63,8 @@ inline void GenZoo(Source& s, Lane l, Zoo& z, const ZooGenCfg& g)
 	if (!g.allowEmpty && z.mapOnlyExist.empty()) z.mapOnlyExist["m0"] = 1;
 	n = ZLen(s, l, g); for (uint32_t i = 0; i < n; ++i) z.mapUpdate["m" + std::to_string(s.draw(l, 8))] = ZInt(s, l);
 	if (!g.allowEmpty && z.mapUpdate.empty()) z.mapUpdate["m0"] = 1;
+	n = ZLen(s, l, g); for (uint32_t i = 0; i < n; ++i) { if (s.chance(l, 1, 3)) z.mapUpdateOpt["m" + std::to_string(s.draw(l, 8))] = std::nullopt; else z.mapUpdateOpt["m" + std::to_string(s.draw(l, 8))] = ZInt(s, l); }
+	if (!g.allowEmpty && z.mapUpdateOpt.empty()) z.mapUpdateOpt["m0"] = 1;
 	if (s.chance(l, 1, 2)) z.opt = ZInt(s, l);
 	if (s.chance(l, 1, 2)) z.optStr = ZStr(s, l, g) + "x";
 	if (s.chance(l, 1, 2)) z.uptr = std::make_unique<int32_t>(ZInt(s, l));
@@ -126,6 +129,20 @@ inline void GenZoo(Source& s, Lane l, Zoo& z, const ZooGenCfg& g)
 		if (g.nonEmptyStrings) { if (r.name.empty()) r.name = "n"; if (r.wide.empty()) r.wide = u"n"; }
 		z.rows.push_back(r);
 	}
+	z.csvRoot = g.csvRoot >= 0 ? g.csvRoot : (g.archive == A_CSV ? static_cast<int>(s.draw(l, 4)) : 0);
+	if (z.csvRoot == 1) z.rowsList.assign(z.rows.begin(), z.rows.end());
+	else if (z.csvRoot == 2) z.rowsDeque.assign(z.rows.begin(), z.rows.end());
+	else if (z.csvRoot == 3) z.rowsFwd.assign(z.rows.begin(), z.rows.end());
+}
+
+// KF-CSV-EMPTY-TABLE: gives the CSV root one (default) row
+inline void EnsureCsvRow(Zoo& z)
+{
+	if (!z.rows.empty()) return;
+	z.rows.emplace_back();
+	if (z.csvRoot == 1) z.rowsList.emplace_back();
+	else if (z.csvRoot == 2) z.rowsDeque.emplace_back();
+	else if (z.csvRoot == 3) z.rowsFwd.emplace_front();
 }
 
 template <class C>
@@ -154,7 +171,10 @@ inline std::map<std::string, std::string> ZooFields(const Zoo& z, bool csv)
 {
 	std::map<std::string, std::string> f;
 	std::string rows = "[";
-	for (auto& r : z.rows) rows += RowRepr(r) + ",";
+	if (csv && z.csvRoot == 1) { for (auto& r : z.rowsList) rows += RowRepr(r) + ","; }
+	else if (csv && z.csvRoot == 2) { for (auto& r : z.rowsDeque) rows += RowRepr(r) + ","; }
+	else if (csv && z.csvRoot == 3) { for (auto& r : z.rowsFwd) rows += RowRepr(r) + ","; }
+	else { for (auto& r : z.rows) rows += RowRepr(r) + ","; }
 	f["rows"] = rows + "]";
 	if (csv) return f;
 	f["base"] = std::to_string(z.baseId) + "/" + HexStr(z.baseName);
@@ -186,6 +206,7 @@ inline std::map<std::string, std::string> ZooFields(const Zoo& z, bool csv)
 	{ std::vector<std::pair<int32_t, int32_t>> v(z.ummap.begin(), z.ummap.end()); std::sort(v.begin(), v.end()); std::string r = "{"; for (auto& kv : v) r += std::to_string(kv.first) + ":" + std::to_string(kv.second) + ","; f["ummap"] = r + "}"; }
 	f["mapOnlyExist"] = mapRepr(z.mapOnlyExist);
 	f["mapUpdate"] = mapRepr(z.mapUpdate);
+	{ std::string r = "{"; for (auto& kv : z.mapUpdateOpt) r += HexStr(kv.first) + ":" + (kv.second ? std::to_string(*kv.second) : std::string("null")) + ","; f["mapUpdateOpt"] = r + "}"; }
 	f["opt"] = z.opt ? std::to_string(*z.opt) : "null";
 	f["optStr"] = z.optStr ? HexStr(*z.optStr) : "null";
 	f["uptr"] = z.uptr ? std::to_string(*z.uptr) : "null";
